@@ -145,6 +145,10 @@ struct PostWin {
 /// Flags and counters the property modules turn into evidence classes / the non-trivial rule.
 #[derive(Default, Debug, Clone)]
 pub struct Facts {
+    pub adapter_waits_armed: u32,
+    pub adapter_wakes: u32,
+    /// composites whose insertion failed half-way and left a registered timer child behind
+    pub failed_comp_left_timer: u32,
     pub dispatches: u32,
     pub callbacks: u32,
     pub in_cb_ops: u32,
@@ -191,9 +195,24 @@ struct MAsync {
     fd: i32,
     live: bool,
     nb_before: bool,
+    /// Some(write): the last poll of readable()/writable() was Pending: waker stored, one-shot interest armed
+    armed: Option<bool>,
+    wakes_seen: u64,
+    fd_r: bool,
+    fd_w: bool,
+    /// armed and its fd ready for the armed interest at dispatch start: the waker must be woken by an Ok dispatch
+    owed: bool,
+    /// an operation touched the adapter during the current dispatch (obligation waived)
+    touched: bool,
+    woken_in_disp: bool,
+    pending_wait: Option<bool>,
+    /// a wake-up and an in-callback operation on the adapter fell into the same dispatch: their order is not known
+    armed_unknown: bool,
 }
 
 pub struct Monitor {
+    /// upper bound on timer-wheel entries left behind by composites whose insertion failed half-way
+    ghost_timers: usize,
     asyncs: Vec<MAsync>,
     pending_adapt: Option<(Option<usize>, bool)>,
     pending_release: Option<(usize, bool)>,
@@ -262,6 +281,7 @@ fn kind_name(k: &Kind) -> &'static str {
 impl Monitor {
     pub fn new() -> Self {
         Monitor {
+            ghost_timers: 0,
             asyncs: vec![],
             pending_adapt: None,
             pending_release: None,
@@ -925,7 +945,7 @@ impl Monitor {
                         if self.asyncs.iter().any(|x| x.fd == fd) {
                             self.facts.readapts += 1;
                         }
-                        self.asyncs.push(MAsync { fd, live: true, nb_before: nonblocking_before });
+                        self.asyncs.push(MAsync { fd, live: true, nb_before: nonblocking_before, armed: None, wakes_seen: 0, fd_r: false, fd_w: false, owed: false, touched: false, woken_in_disp: false, pending_wait: None, armed_unknown: false });
                         if !nb_after {
                             return viol("C17.flags", &["C17", "C15"], format!("fd {fd} is still blocking after adapt_io succeeded"));
                         }
@@ -964,12 +984,42 @@ impl Monitor {
                 }
                 let m = &mut self.asyncs[a];
                 m.live = false;
+                m.armed = None;
+                m.touched = true;
                 if nb_after != m.nb_before {
                     return viol("C17.flags", &["C17", "C16"], format!("after the adapter of fd {fd} was released O_NONBLOCK is {nb_after}, before adapt_io it was {}", m.nb_before));
                 }
                 None
             }
             ROp::InsertBad { .. } => None,
+            ROp::AsyncWait { a, write } => {
+                if !evs.is_empty() {
+                    return viol("C07.interference", &["C15", "C16", "C07"], format!("polling an adapter called {:?} on source #{}", evs[0].kind, evs[0].src));
+                }
+                let in_disp = self.in_disp;
+                if let Some(m) = self.asyncs.get_mut(a) {
+                    m.touched = true;
+                    if !in_disp {
+                        m.armed_unknown = false;
+                    }
+                    match m.pending_wait.take() {
+                        Some(true) => m.armed = None,
+                        Some(false) => {
+                            m.armed = Some(write);
+                            self.facts.adapter_waits_armed += 1;
+                        }
+                        None => {}
+                    }
+                }
+                None
+            }
+            ROp::AsyncIo { a } => {
+                if let Some(m) = self.asyncs.get_mut(a) {
+                    // readiness changed under the dispatch: what was owed at its start is waived
+                    m.touched = true;
+                }
+                None
+            }
             ROp::CompPoke { src, child } => {
                 if let Some(c) = self.srcs[src].children.get_mut(child as usize) {
                     match c.kind {
@@ -1203,6 +1253,7 @@ impl Monitor {
                             CKind::Ping => c.pings > 0,
                             CKind::Gen => c.r,
                             CKind::Timer { .. } => c.armed_dl.map(|d| d <= t_before).unwrap_or(false) && !c.dl_open,
+                            CKind::Bad => false,
                         };
                         c.owed = cause && c.key.is_some() && !c.gone && !c.disabled;
                         any |= c.owed;
@@ -1405,6 +1456,15 @@ impl Monitor {
                 self.disp_actors = 0;
                 self.facts.dispatches += 1;
                 self.compute_owed(*t_ns);
+                for m in self.asyncs.iter_mut() {
+                    m.touched = false;
+                    m.woken_in_disp = false;
+                    m.owed = m.live && !m.armed_unknown && match m.armed {
+                        Some(true) => m.fd_w,
+                        Some(false) => m.fd_r,
+                        None => false,
+                    };
+                }
                 None
             }
             Ev::BeforeSleep { src, ret, err } => {
@@ -1722,6 +1782,20 @@ impl Monitor {
             Ev::Reg { src, res, keys } => {
                 if res.is_ok() {
                     self.comp_keys(*src, keys, true);
+                } else {
+                    // a composite whose registration failed half-way does not roll back (book style): the timer
+                    // children it did register stay in the wheel as ghosts until their deadline passes
+                    let m = &self.srcs[*src];
+                    let ghosts = m
+                        .children
+                        .iter()
+                        .enumerate()
+                        .filter(|(i, c)| matches!(c.kind, CKind::Timer { .. }) && c.deadline.is_some() && keys.get(*i).map_or(false, |k| *k != u64::MAX))
+                        .count();
+                    self.ghost_timers += ghosts;
+                    if ghosts > 0 {
+                        self.facts.failed_comp_left_timer += 1;
+                    }
                 }
                 self.on_regev(RegKind::Reg, *src, res)
             }
@@ -1810,6 +1884,22 @@ impl Monitor {
                                         format!("lifecycle source #{i} got {} before_sleep and {} before_handle_events calls in a dispatch that returned Ok", m.bs, m.bh),
                                     );
                                 }
+                            }
+                        }
+                        for (i, m) in self.asyncs.iter().enumerate() {
+                            if m.owed && !m.touched && !m.woken_in_disp && m.live {
+                                return Some((
+                                    Violation::new(
+                                        "C17.stuck",
+                                        format!(
+                                            "adapter #{i} (fd {}) had a waiter armed for {} and poll(2) showed the fd ready before the dispatch, but the dispatch returned Ok without waking the stored waker",
+                                            m.fd,
+                                            if m.armed == Some(true) { "WRITE" } else { "READ" }
+                                        ),
+                                    )
+                                    .with_sig("C17.stuck/hist-waiter-not-woken"),
+                                    vec!["C02", "C17", "C16"],
+                                ));
                             }
                         }
                         for (i, m) in self.srcs.iter().enumerate() {
@@ -1939,8 +2029,8 @@ impl Monitor {
                 }
                 let want_heap = self.srcs.iter().filter(|m| matches!(m.kind, Kind::Timer { .. }) && m.armed_dl.is_some()).count()
                     + self.srcs.iter().map(|m| m.children.iter().filter(|c| c.armed_dl.is_some()).count()).sum::<usize>();
-                if *heap != want_heap {
-                    return viol("C05.residue", &["C05"], format!("timer heap holds {heap} entries, model has {want_heap} live unfired armings"));
+                if *heap < want_heap || *heap > want_heap + self.ghost_timers {
+                    return viol("C05.residue", &["C05"], format!("timer heap holds {heap} entries, model has {want_heap} live unfired armings (+ at most {} left behind by composites whose insertion failed half-way)", self.ghost_timers));
                 }
                 None
             }
@@ -1975,6 +2065,41 @@ impl Monitor {
             }
             Ev::AsyncReleased { a, nonblocking_after } => {
                 self.pending_release = Some((*a, *nonblocking_after));
+                None
+            }
+            Ev::AsyncPolled { a, ready } => {
+                if let Some(m) = self.asyncs.get_mut(*a) {
+                    m.pending_wait = Some(*ready);
+                }
+                None
+            }
+            Ev::AsyncFd { a, r, w } => {
+                if let Some(m) = self.asyncs.get_mut(*a) {
+                    m.fd_r = *r;
+                    m.fd_w = *w;
+                }
+                None
+            }
+            Ev::AsyncWakes { a, n } => {
+                let Some(m) = self.asyncs.get_mut(*a) else { return None };
+                let delta = n.saturating_sub(m.wakes_seen);
+                m.wakes_seen = *n;
+                if delta > 0 {
+                    m.woken_in_disp = true;
+                    if m.touched {
+                        m.armed_unknown = true;
+                    }
+                    if m.armed.is_some() && !m.touched {
+                        // the one-shot registration fired and used up the stored waker
+                        m.armed = None;
+                        self.facts.adapter_wakes += 1;
+                    } else if !m.touched && m.live {
+                        return viol("C01.cause", &["C01", "C17"], format!("adapter #{a} woke its waker {delta} time(s) although no wait was armed"));
+                    }
+                    if delta > 1 && !m.touched {
+                        return viol("C02.oneshot", &["C02", "C17"], format!("adapter #{a} woke one stored waker {delta} times in one dispatch"));
+                    }
+                }
                 None
             }
             Ev::LoopDropped => {
@@ -2023,6 +2148,20 @@ impl Monitor {
                     .with_sig(if n > live { "C16.table/stale-adapter-fd" } else { "C16.table/adapter-fd-missing" }),
                     vec!["C16", "C15"],
                 ));
+            }
+            if let Some(a) = self.asyncs.iter().find(|a| a.fd == fd && a.live) {
+                if let (Some(write), Some(e), false) = (a.armed, actual.iter().find(|e| e.0 == fd), a.armed_unknown) {
+                    let has_in = e.1 & crate::kernel::EPOLLIN != 0;
+                    let has_out = e.1 & crate::kernel::EPOLLOUT != 0;
+                    let oneshot = e.1 & crate::kernel::EPOLLONESHOT != 0;
+                    if !oneshot || has_in == write || has_out != write {
+                        return viol(
+                            "C16.bits",
+                            &["C16", "C17"],
+                            format!("adapter fd {fd} is armed for {} but is registered with events {:#x}", if write { "WRITE" } else { "READ" }, e.1),
+                        );
+                    }
+                }
             }
             actual.retain(|e| e.0 != fd);
         }
